@@ -854,4 +854,174 @@ def wfProps : JSProps → Bool
   | .cons _ j ps => wfJS j && wfProps ps
 end
 
+/-! ## `Representable` — the fragment on which the document and Parse agree
+
+Each named condition below is one *finding class*: outside it the pinned code makes the
+document and Parse disagree (witness theorems in `Gozod/Proofs/C07.lean`, replayed on the real
+code by the correspondence).  `reprP` is the value-preserving fragment (Parse returns its input),
+where validity and acceptance coincide as Booleans; `repr` additionally admits a strip-mode
+object at the top (through Optional/Nilable wrappers), where the statement's two directions
+speak about different values (returned value / input). -/
+
+/-- `Length(n)` overwrites `minLength`/`maxLength` in the Bag instead of merging: faithful only
+    when no length check precedes it. -/
+def strLenOK : List StrCk → Bool
+  | [] => true
+  | .len _ :: cs => lenFree cs
+  | .min _ :: cs => lenFree cs
+  | .max _ :: cs => lenFree cs
+  | _ :: cs => strLenOK cs
+where
+  lenFree : List StrCk → Bool
+    | [] => true
+    | .len _ :: _ => false
+    | _ :: cs => lenFree cs
+
+/-- `Trim` rewrites the value before later checks; not expressible in the document. -/
+def noTrim (cks : List StrCk) : Bool := cks.all (fun c => match c with | .trim => false | _ => true)
+
+/-- `removeConflictingBound` drops an exclusive bound when an inclusive bound of the SAME value
+    arrives after it (`Gt(5).Gte(5)` ⇒ `minimum: 5`): the step is faithful unless that happens. -/
+def NumBag.stepOK (b : NumBag) : NumCk → Bool
+  | .gte v => match b.exMin with | some e => decide (v ≠ e) | none => true
+  | .lte v => match b.exMax with | some e => decide (v ≠ e) | none => true
+  | .mul v => b.mul.isNone && decide (0 < v)      -- a second MultipleOf overwrites the first
+  | _ => true
+
+def numFoldOK : NumBag → List NumCk → Bool
+  | _, [] => true
+  | b, c :: cs => b.stepOK c && numFoldOK (b.step c) cs
+
+/-- sized integer kinds get their range only from the depth-1 defaults (and lose it when any
+    bound check is present). -/
+def intKindOK (top : Bool) (k : IntKind) (cks : List NumCk) : Bool :=
+  match k with
+  | .int => true
+  | .i64 => true
+  | _ => top && !(numBag cks).hasBound
+
+/-- `MinSize/MaxSize/Size` write the Bag key unconditionally (last one wins). -/
+def szSimple : List SzCk → Bool
+  | [] => true
+  | [_] => true
+  | [.min _, .max _] => true
+  | [.max _, .min _] => true
+  | _ => false
+
+def S.isStrictObj : S → Bool
+  | .obj .strict _ _ _ _ => true
+  | _ => false
+
+def S.isStrSchema : S → Bool
+  | .str _ => true
+  | _ => false
+
+def Prim.sameKind : Prim → Prim → Bool
+  | .bool _, .bool _ => true
+  | .num _, .num _ => true
+  | .str _, .str _ => true
+  | _, _ => false
+
+/-- the `type` tag of a literal comes from its FIRST value only: members must be of one
+    (non-null) kind. -/
+def litHomog : List Prim → Bool
+  | [] => false
+  | v :: vs => v.sameKind v && vs.all (fun p => v.sameKind p)
+
+/-- the document of `s` admits `null` exactly when Parse does. -/
+def S.docNullable : S → Bool
+  | .nul _ => true
+  | .nil => true
+  | .any => true
+  | _ => false
+
+mutual
+/-- value-preserving representable fragment. -/
+def reprP (top : Bool) : S → Bool
+  | .str cks => strLenOK cks && noTrim cks
+  | .int k cks => intKindOK top k cks && numFoldOK {} cks
+  | .flt cks => numFoldOK {} cks
+  | .bool => true
+  | .nil => true
+  | .any => true
+  | .never => true
+  | .enum vs => !vs.isEmpty
+  | .lit vs => litHomog vs
+  | .opt s => s.docNullable && reprP top s          -- plain Optional accepts null, the document does not
+  | .nul s => reprP top s
+  | .obj mode ca part cks shape =>
+      (match mode with | .strip => false | _ => true)     -- strip returns a different value (see `repr`)
+      && !part                                            -- Partial() keeps `required`
+      && (match mode, ca with | .strict, .some _ => false | _, _ => true)  -- strict ignores the catch-all
+      && szSimple cks && reprCa ca && reprShape shape
+  | .slice e cks => szSimple cks && reprP false e
+  | .arr rest cks items =>
+      cks.isEmpty                                         -- Array.Min/Max/Length emit min/maxLength
+      && (match rest with
+          | .none => items.length != 1          -- single item ⇒ emitted as variable-length `items`
+          | .some _ => items.length == 0)       -- with a rest schema no `minItems` is emitted
+      && reprCa rest && reprList items
+  | .tup rest cks items =>
+      cks.isEmpty
+      && (match rest with
+          | .none => true
+          | .some _ => reqCount items == 0)     -- with a rest schema no `minItems` is emitted
+      && reprCa rest && reprList items
+  | .record key val cks =>
+      key.isStrSchema && reprP false key                  -- enum keys are exhaustive in Parse only
+      && szSimple cks && reprP false val
+  | .union ms => !ms.length == 0 && reprMembers ms
+  | .xor ms => !ms.length == 0 && reprMembers ms
+  | .and l r =>
+      !l.acceptsNull && !r.acceptsNull && !l.isStrictObj && !r.isStrictObj
+      && reprP false l && reprP false r
+
+def reprCa : SOpt → Bool
+  | .none => true
+  | .some s => reprP false s
+
+def reprList : SList → Bool
+  | .nil => true
+  | .cons s ss => reprP false s && reprList ss
+
+/-- union members: the engine rejects nil before members are asked, `anyOf` does not. -/
+def reprMembers : SList → Bool
+  | .nil => true
+  | .cons s ss => !s.acceptsNull && reprP false s && reprMembers ss
+
+def reprShape : Shape → Bool
+  | .nil => true
+  | .cons _ s rest => reprP false s && reprShape rest
+end
+
+/-- `reprP`, or a strip-mode object (whose members are `reprP`) under Optional/Nilable wrappers. -/
+def repr (top : Bool) : S → Bool
+  | .opt s => (s.docNullable && repr top s) || reprP top (.opt s)
+  | .nul s => repr top s || reprP top (.nul s)
+  | .obj .strip ca part cks shape =>
+      -- size checks see the STRIPPED result, the document counts the input's properties
+      !part && szSimple cks && (match ca with | .none => true | .some _ => cks.isEmpty)
+      && reprCa ca && reprShape shape
+  | s => reprP top s
+
+/-! instance side: ASCII strings (bytes = code points), numbers small enough for every Go kind. -/
+
+def asciiStr (s : Str) : Bool := s.all (fun c => decide (c < 128))
+
+mutual
+def instOK : Json → Bool
+  | .null => true
+  | .bool _ => true
+  | .num q => decide (-(2 ^ 53) < q) && decide (q < 2 ^ 53)
+  | .str s => asciiStr s
+  | .arr xs => instListOK xs
+  | .obj fs => instFieldsOK fs
+def instListOK : JsonList → Bool
+  | .nil => true
+  | .cons x xs => instOK x && instListOK xs
+def instFieldsOK : JsonFields → Bool
+  | .nil => true
+  | .cons k v fs => asciiStr k && instOK v && instFieldsOK fs
+end
+
 end Gozod.Jsc
